@@ -41,12 +41,15 @@ def run(chk):
     thorough = chk.tier == "thorough"
     dc.driver()
     K = dc.BALANCE_KINDS
+    KS = K + ["Sponsor"]
     if thorough:
-        jobs = [("bal-basic", "basic", K, 9, 2, 1, 40000), ("bal-votes", "votes", K + ["Sponsor"], 11, 2, 1, 40000),
-                ("bal-penalty", "penalty", K, 11, 2, 0, 30000), ("bal-cancel", "cancel", K, 13, 2, 1, 40000)]
+        jobs = [("bal-basic", "basic", K, 9, 1, 0, 2000, 4, 4), ("bal-basic-pairs", "basic", KS, 8, 2, 0, 3000, 4, 20),
+                ("bal-votes", "votes", KS, 10, 1, 0, 2000, 4, 1), ("bal-votes-pairs", "votes", KS, 9, 2, 0, 2000, 4, 1),
+                ("bal-penalty", "penalty", K, 11, 1, 0, 1500, 4, 1), ("bal-penalty-pairs", "penalty", KS, 10, 2, 0, 700, 4, 1),
+                ("bal-cancel-pairs", "cancel", K, 12, 2, 0, 3000, 4, 4), ("bal-cancel", "cancel", K, 13, 1, 0, 2000, 4, 1)]
     else:
-        jobs = [("bal-votes", "votes", K, 9, 2, 0, 260, 3), ("bal-cancel", "cancel", K, 12, 1, 0, 260, 3),
-                ("bal-basic", "basic", K, 8, 2, 0, 200, 3)]
+        jobs = [("bal-votes", "votes", KS, 9, 2, 0, 240, 3, 1), ("bal-cancel", "cancel", K, 12, 1, 0, 240, 3, 1),
+                ("bal-basic", "basic", KS, 8, 2, 0, 200, 3, 20)]
     allbehs = dc.explore_all(chk, jobs)
 
     # binding self-tests: (a) a corrupted expected balance, (b) a refused over-limit request relabelled as acceptable
